@@ -953,7 +953,7 @@ theorem execOperand_matrixBlock (f : Nat) (k : ActKind) (n : NameSpec) (body : B
     execOperand (f + 1) k (.matrixBlock n body) σ =
       andThen ((nameSet n σ).device fun vm => execInstr default vm .matrix) fun s1 =>
         match execBlock f body s1 with
-        | (.normal, s2) => (s2.setReg .operand (.operand .matrixLight)).device
+        | (.normal, s2) => ((nameSet n s2).setReg .operand (.operand .matrixLight)).device
             (if k == .set then State.doColor else State.doPower)
         | r => r := by
   cases n <;> simp only [execOperand, nameSet] <;> rfl
@@ -1037,7 +1037,8 @@ theorem operand_matrixBlock (f : Nat) (ihB : BlockGoal V img K f) (k : ActKind) 
       fun t2 ht2 => ?_
     simp only [Target] at ht2
     refine (exec_endMatrix ht2.2 ht2.1 (idx hcr.head)).trans fun t3 ht3 => ?_
-    refine (exec_moveqReg _ .operand (by decide) ht3.2 ht3.1 (idx hcr.tail.head)).trans fun t4 ht4 => ?_
+    refine (exec_nameSet n ht3.2 ht3.1 (idx hcr.tail.head)).trans fun t3' ht3' => ?_
+    refine (exec_moveqReg _ .operand (by decide) ht3'.2 ht3'.1 (idx hcr.tail.tail.head)).trans fun t4 ht4 => ?_
     refine (exec_fire k ht4.2 ht4.1 (idx hcf) hfire).mono fun t5 ht5 => ⟨?_, ht5.2⟩
     rw [ht5.1]; simp [Target, List.length_append]; omega
   · have hb' : o = .brk := by
